@@ -5,13 +5,24 @@ concatenated pages equal the naive scan, no block's atoms are missing from the c
 path consults, the index never blocks Store/RevertHead — over all histories of stores, reverts
 across window boundaries, cache-warming queries and graceful/ungraceful restarts within the bounds,
 and (separate configuration) over every filter x range x chunk size x scan limit.
-(ii) For every known defect switch TLC produces the minimal counterexample of the FAITHFUL model on
-the real geometry (W = 8192, base image of 8188 blocks); it is replayed on the real code. If it
-reproduces, the switch stays FALSE (the defect is in the tree; it is reported with its specific
-key), otherwise the tree is repaired for it and the switch becomes TRUE.
-Binding: TLC-simulated behaviours of the model with the calibrated switches are replayed on a real
-blockchain.Blockchain (memory DB, real window size) and compared step by step (results, pages,
-tokens, persisted windows, snapshot) plus an independent naive-scan oracle over the stored receipts.
+
+Expectation for the tree under test: a defect switch is FALSE only while known_findings.json lists
+one of its keys with status "known"; "fixed" (or not listed) means the REPAIRED model is what the
+code must conform to. The tree under test never decides its own expectation.
+
+Binding, every run:
+(ii) directed behaviours judged by the ORACLE alone (naive scan of the receipts the harness stored;
+Store/RevertHead must not be refused): TLC's minimal counterexample of every defect switch (the
+faithful model with that switch FALSE, real geometry W = 8192 / base 8188) plus hand-written
+boundary variants (revert exactly k*8192-1 with a warm cache, revert k*8192 then k*8192-1 with a
+query in between, deeper reorgs, the snapshot and persisted-window variants);
+(iii) TLC-simulated behaviours of the expected model replayed on a real blockchain.Blockchain and
+compared step by step (results, pages, tokens, persisted windows, snapshot) plus the same oracle.
+Every divergence is a violation; an omission is labelled with the key of the known defect whose
+signature it has (differential experiment on copies of the database), so a returning "fixed"
+defect is reported under its own key. Only for a "known" switch the check additionally replays the
+minimal counterexample as a diagnostic: if the finding no longer reproduces it prints a NOTE (the
+list should be updated) and continues with the repaired expectation.
 """
 import json
 import os
@@ -21,16 +32,76 @@ import vlib
 
 FAMILY = "chain"
 SWITCHES = ["DropReopenedWindow", "InvalidateCacheOnReorg", "SnapshotConsumedOnLoad"]
-# per switch: invariant that exports the counterexample, graceful stops needed, key the engine reports
-#             and the signatures of the first divergence that show the tree is REPAIRED for it
+# per switch: invariant that exports the counterexample, graceful stops needed, the keys of the defect,
+#             and the signatures of the first divergence that show a tree is REPAIRED for it
 CEX = {
-    "DropReopenedWindow": ("CexBlocked", 0, "event-index:store-rejected-after-reorg-across-window-then-crash",
+    "DropReopenedWindow": ("CexBlocked", 0,
+                           ("event-index:store-rejected-after-reorg-across-window-then-crash",
+                            "event-index:stale-persisted-window-after-reorg-across-window-then-crash"),
                            ("event-index:conformance:Revert:persisted-missing",)),
-    "InvalidateCacheOnReorg": ("CexQuery", 0, "event-index:stale-cache-after-reorg-across-window",
-                               ("model-mismatch:defect-not-in-code:cache",)),
-    "SnapshotConsumedOnLoad": ("CexQuery", 1, "event-index:stale-snapshot-after-reorg-then-crash",
-                               ("model-mismatch:defect-not-in-code:snapshot", ":snapshot-presence")),
+    "InvalidateCacheOnReorg": ("CexQuery", 0, ("event-index:stale-cache-after-reorg-across-window",),
+                               ("model-predicts-defect-not-in-code",)),
+    "SnapshotConsumedOnLoad": ("CexQuery", 1, ("event-index:stale-snapshot-after-reorg-then-crash",),
+                               ("model-predicts-defect-not-in-code", ":snapshot-presence")),
 }
+
+# ---- directed scenarios (actions only: judged by the oracle). Block numbers are relative to the base.
+_E = []                                              # empty block
+_X = [[{"a": "a1", "k": ["k1"]}]]                    # one tx, one event (a1, k1)
+_Y = [[{"a": "a2", "k": ["k2", "k1"]}], [{"a": "a1", "k": ["k2"]}]]
+_FK1 = {"addrs": [], "keys": [["k1"]]}
+_FA1 = {"addrs": ["a1"], "keys": []}
+_FP1 = {"addrs": [], "keys": [[], ["k1"]]}
+_FK2 = {"addrs": ["a1", "a2"], "keys": [["k2"]]}
+
+
+def _S(blk):
+    return {"a": {"name": "Store", "blk": blk}}
+
+
+_R = {"a": {"name": "Revert"}}
+_G = {"a": {"name": "Restart", "graceful": True}}
+_C = {"a": {"name": "Restart", "graceful": False}}
+
+
+def _scenarios(base):
+    def Q(f, frm=0, to=None, chunk=100, limit=0):
+        return {"a": {"name": "Query", "f": f, "from": frm, "to": base + 12 if to is None else to,
+                      "chunk": chunk, "limit": limit}}
+
+    probes = [Q(_FK1), Q(_FA1, chunk=1), Q(_FP1, limit=1), Q(_FK2, chunk=2, limit=2)]
+    to_boundary = [_S(_E)] * 3 + [_S(_Y)]             # base+0 .. base+3 = k*8192-1: the window is completed
+    sc = {
+        # H1 family: the LRU of persisted windows and reorgs around the boundary
+        "revert-last-block-of-window-with-warm-cache":
+            to_boundary + [Q(_FK1)] + [_R, _S(_X)] + probes,
+        "revert-first-block-of-next-window-then-query-then-last-block-of-window":
+            to_boundary + [_S(_X), Q(_FK1), _R, Q(_FA1), _R, _S(_X), _S(_Y)] + probes,
+        "deeper-reorg-across-boundary-with-warm-cache":
+            to_boundary + [_S(_X), _S(_E), Q(_FK1), _R, _R, _R, _R, _S(_X), _S(_X), _S(_Y), _S(_X)] + probes,
+        "deeper-reorg-across-boundary-queries-between-reverts":
+            to_boundary + [_S(_X), _S(_E), Q(_FK1), _R, Q(_FK1), _R, Q(_FK1), _R, Q(_FK1), _R,
+                           _S(_X), Q(_FK1), _S(_X), Q(_FK1), _S(_Y), _S(_X)] + probes,
+        "two-reorgs-across-boundary":
+            to_boundary + [Q(_FK1), _R, _S(_X), Q(_FK1), _R, _R, _S(_Y), _S(_X), _S(_X)] + probes,
+        # H2 family: the shutdown snapshot
+        "snapshot-then-reorg-then-crash":
+            [_S(_E), _G, _R, _S(_X), _C] + probes,
+        "snapshot-then-reorg-grow-then-crash-same-window-fill":
+            [_S(_E), _S(_E), _G, _R, _R, _S(_X), _S(_Y), _S(_X), _C] + probes,
+        "snapshot-fill-reaches-window-end":
+            [_S(_E), _S(_E), _G, _R, _S(_X), _S(_E), _S(_Y), _C] + probes + [_C] + probes,
+        "snapshot-above-boundary-then-reorg-across-then-crash":
+            to_boundary + [_S(_E), _G, _R, _R, _S(_X), _S(_X), _C] + probes,
+        # H19 family: the persisted filter of a re-opened window
+        "reorg-across-boundary-then-crash-then-store":
+            to_boundary + [_R, _C, _S(_X), _S(_E)] + probes,
+        "reorg-across-boundary-replace-then-crash":
+            to_boundary + [_R, _R, _S(_X), _C] + probes + [_S(_Y), _S(_X)] + probes,
+        "reorg-across-boundary-graceful-then-crash":
+            to_boundary + [_S(_E), _R, _R, _G, _S(_X), _C, _S(_X), _S(_Y)] + probes,
+    }
+    return sc
 
 
 def _read(name):
@@ -77,6 +148,16 @@ def _cex_from(out):
     return best
 
 
+def _known_switch_state(ctx):
+    """switch = FALSE (defective model expected) only while one of its keys is listed `known`"""
+    state = {}
+    for sw in SWITCHES:
+        keys = CEX[sw][2]
+        state[sw] = not any(k["status"] == "known" and any(vlib.key_matches(k["key"], x) for x in keys)
+                            for k in ctx.known)
+    return state
+
+
 def run(ctx):
     binary = ctx.build_engine("events")
     if ctx.replay:
@@ -87,6 +168,7 @@ def run(ctx):
         return ctx.finish("model_checking", "replay of one recorded behaviour")
 
     thorough = not ctx.quick()
+    notes = []
 
     # ---- (i) the repaired design, exhaustively
     ctx.tlc_check(FAMILY, "MCEvents.tla", "Events_quick.cfg", timeout=900)
@@ -95,8 +177,8 @@ def run(ctx):
         r = ctx.tlc_check(FAMILY, "MCEvents.tla", "Events_thorough.cfg", timeout=1500, coverage=True)
         ctx.coverage["action_coverage_thorough"] = _require_covered(r, ("Store", "Revert", "Restart", "Next"))  # Next = Query
         ctx.tlc_check(FAMILY, "MCEvents.tla", "Events_paging_thorough.cfg", timeout=1500)
-        # the model of the code as it is: every false negative it can produce has one of the three
-        # known causes, and each switch alone only produces its own (soundness of the keys)
+        # the model of the code before the fixes: every false negative it can produce has one of the
+        # three known causes, and each switch alone only produces its own (soundness of the keys)
         blame = _read("Events_blame.cfg")
         ctx.tlc_check(FAMILY, "MCEvents.tla", "Events_blame.cfg", timeout=1500)
         for sw, prop in (("InvalidateCacheOnReorg", "OnlyCacheToBlame"),
@@ -108,59 +190,62 @@ def run(ctx):
                           files={"Events_blame_run.cfg": _render(blame, consts, properties=prop)},
                           label="blame:%s=FALSE/%s" % (sw, prop))
 
-    # ---- (ii) which defects does the tree under test have? minimal counterexample of each
-    #      faithful switch, replayed on the real code
-    cex_tpl = _read("Events_cex.cfg")
-    state = {s: True for s in SWITCHES}      # not yet calibrated = repaired
-    confirmed = []                            # behaviours that reproduce a defect on the real code
-    for sw in SWITCHES:
-        inv, graceful, key, repaired_sigs = CEX[sw]
-        consts = dict(state)
-        consts[sw] = False
-        consts["MaxGraceful"] = graceful
-        cfg = _render(cex_tpl, consts, inv)
-        r = ctx.tlc_check(FAMILY, "MCEvents.tla", "Events_cex_run.cfg", workers=1, timeout=600,
-                          expect_violation=True, files={"Events_cex_run.cfg": cfg},
-                          label="cex:%s=FALSE" % sw)
-        beh = _cex_from(r["out"]) if not r["ok"] else None
-        if not beh:
-            raise vlib.Broken("the faithful model (%s = FALSE) has no counterexample within Events_cex.cfg" % sw)
-        res = ctx.run_engine(binary, "TestEventsReplay",
-                             {"w": 8192, "base": 8188, "behaviours": [beh], "mode": "calibrate", "variants": [0]},
-                             timeout=900)
-        cal = res.get("stats", {}).get("calibration", [{}])[0]
-        present = bool(cal.get("conform")) and key in (cal.get("defects") or [])
-        fkey = cal.get("first_divergence_key") or ""
-        repaired = (not present) and any(fkey == sig or fkey.endswith(sig) for sig in repaired_sigs)
-        # neither: the tree differs from BOTH variants of the model somewhere else; keep the
-        # faithful switch, the replay below reports that difference as a divergence
-        state[sw] = repaired
-        vlib.log("calibration %s: minimal counterexample (%d steps) %s on the real code -> %s = %s" % (
-            sw, len(beh), "REPRODUCES" if present else (
-                "does not reproduce (repaired: %s)" % fkey if repaired else "INCONCLUSIVE (first divergence: %s)" % fkey),
-            sw, "TRUE" if repaired else "FALSE"))
-        if present:
-            confirmed.append(beh)
-    if not state["DropReopenedWindow"]:
-        # the same root cause also yields false negatives (not only a refused Store): export that
-        # minimal history too so that it is reported under its own key in every run
-        consts = dict(state, MaxGraceful=0)
-        consts["InvalidateCacheOnReorg"] = True
-        consts["SnapshotConsumedOnLoad"] = True
-        r = ctx.tlc_check(FAMILY, "MCEvents.tla", "Events_cex_run.cfg", workers=1, timeout=600,
-                          expect_violation=True, files={"Events_cex_run.cfg": _render(cex_tpl, consts, "CexQuery")},
-                          label="cex:DropReopenedWindow=FALSE/query")
-        beh = _cex_from(r["out"]) if not r["ok"] else None
-        if not beh:
-            raise vlib.Broken("no false-negative counterexample for DropReopenedWindow = FALSE")
-        confirmed.append(beh)
-    ctx.coverage["switches_describing_the_tree"] = {k: ("TRUE" if v else "FALSE") for k, v in state.items()}
+    # ---- the expectation comes from the committed list, never from the tree under test
+    state = _known_switch_state(ctx)
 
-    # ---- (iii) behaviours of the model that describes the tree, replayed on the real node
+    # ---- (ii) directed behaviours, judged by the oracle: TLC's minimal counterexample of every
+    #      defect switch + boundary variants
+    cex_tpl = _read("Events_cex.cfg")
+    directed, names = [], []
+    for sw in SWITCHES:
+        inv, graceful, keys, repaired_sigs = CEX[sw]
+        runs = [(inv, graceful)]
+        if sw == "DropReopenedWindow":
+            runs.append(("CexQuery", 0))      # the same root cause also yields false negatives
+        for inv_i, graceful_i in runs:
+            consts = {x: True for x in SWITCHES}
+            consts[sw] = False
+            consts["MaxGraceful"] = graceful_i
+            r = ctx.tlc_check(FAMILY, "MCEvents.tla", "Events_cex_run.cfg", workers=1, timeout=600,
+                              expect_violation=True,
+                              files={"Events_cex_run.cfg": _render(cex_tpl, consts, inv_i)},
+                              label="cex:%s=FALSE/%s" % (sw, inv_i))
+            beh = _cex_from(r["out"]) if not r["ok"] else None
+            if not beh:
+                raise vlib.Broken("the faithful model (%s = FALSE) has no %s counterexample within Events_cex.cfg" % (sw, inv_i))
+            directed.append(beh)
+            names.append("tlc-minimal:%s=FALSE/%s" % (sw, inv_i))
+            if not state[sw] and inv_i == inv:
+                # diagnostic for a `known` finding only: does it still reproduce?
+                res = ctx.run_engine(binary, "TestEventsReplay",
+                                     {"w": 8192, "base": 8188, "behaviours": [beh], "mode": "calibrate", "variants": [0]},
+                                     timeout=900)
+                cal = res.get("stats", {}).get("calibration", [{}])[0]
+                present = bool(cal.get("conform")) and any(k in (cal.get("defects") or []) for k in keys)
+                fkey = cal.get("first_divergence_key") or ""
+                nic = res.get("stats", {}).get("notes_model_predicts_defect_not_in_code") or []
+                gone = (not present) and (bool(nic) or any(fkey == sig or fkey.endswith(sig) for sig in repaired_sigs))
+                if gone:
+                    notes.append("known finding %s no longer reproduces on this tree (minimal counterexample of %s = FALSE "
+                                 "passes) - known_findings.json should be updated; continuing with the repaired expectation"
+                                 % (keys[0], sw))
+                    state[sw] = True
+    for nm, beh in sorted(_scenarios(8188).items()):
+        directed.append(beh)
+        names.append(nm)
+    res = ctx.run_engine(binary, "TestEventsReplay",
+                         {"w": 8192, "base": 8188, "behaviours": directed, "mode": "oracle",
+                          "variants": [0, 7, 3, 4]}, timeout=1800)
+    ctx.absorb(res, "events", "TestEventsReplay")
+    total_beh, total_steps = len(directed), res.get("steps", 0)
+    ctx.coverage["directed_behaviours"] = names
+    ctx.coverage["switches_expected"] = {k: ("TRUE" if v else "FALSE") for k, v in state.items()}
+
+    # ---- (iii) behaviours of the expected model, replayed on the real node
     sim_tpl = _read("Events_sim.cfg")
     nruns = 8 if thorough else 2
     per_run = 260 if thorough else 110
-    behaviours = list(confirmed)
+    behaviours = []
     for i in range(nruns):
         cfg = _render(sim_tpl, state)
         behaviours += ctx.tlc_simulate(FAMILY, "EventsMBT.tla", "Events_sim_run.cfg", depth=25 * per_run,
@@ -169,10 +254,18 @@ def run(ctx):
     res = ctx.run_engine(binary, "TestEventsReplay", {"w": 8192, "base": 8188, "behaviours": behaviours},
                          timeout=2400)
     ctx.absorb(res, "events", "TestEventsReplay")
-    total_beh, total_steps = len(behaviours), res.get("steps", 0)
+    notes += res.get("stats", {}).get("notes_model_predicts_defect_not_in_code") or []
+    total_beh += len(behaviours)
+    total_steps += res.get("steps", 0)
 
     if thorough:
         # second geometry: two complete windows below the modelled blocks (16 380-block image)
+        b2 = [beh for _, beh in sorted(_scenarios(16380).items())]
+        res2 = ctx.run_engine(binary, "TestEventsReplay", {"w": 8192, "base": 16380, "behaviours": b2, "mode": "oracle",
+                                                          "variants": [0, 7, 3, 4]}, timeout=1800)
+        ctx.absorb(res2, "events", "TestEventsReplay")
+        total_beh += len(b2)
+        total_steps += res2.get("steps", 0)
         b2 = []
         for i in range(3):
             cfg = _render(sim_tpl, dict(state, Base=16380))
@@ -182,17 +275,15 @@ def run(ctx):
         res2 = ctx.run_engine(binary, "TestEventsReplay", {"w": 8192, "base": 16380, "behaviours": b2,
                                                           "variants": [0, 3, 5, 6]}, timeout=2400)
         ctx.absorb(res2, "events", "TestEventsReplay")
+        notes += res2.get("stats", {}).get("notes_model_predicts_defect_not_in_code") or []
         total_beh += len(b2)
         total_steps += res2.get("steps", 0)
 
     ctx.coverage["behaviours_generated"] = total_beh
     ctx.coverage["steps_replayed"] = total_steps
-
-    # a model that predicts a defect the code does not show is a broken model, not a verdict
-    mism = [v for v in ctx.violations if v["key"].startswith("model-mismatch:")]
-    if mism:
-        raise vlib.Broken("the specification (switches %s) predicts a defect the code does not exhibit: %s — see %s" % (
-            state, mism[0]["what"], mism[0]["replay"]))
+    ctx.coverage["notes"] = notes
+    for n in notes[:6]:
+        print("NOTE: property=C09 %s" % n, flush=True)
 
     ctx.assumptions += [
         "a block's bloom filter is modelled as the exact set of its atoms: hash-collision false positives "
@@ -206,10 +297,12 @@ def run(ctx):
     return ctx.finish(
         "model_checking",
         "exhaustive TLC on the repaired design (index histories with reorgs across two window boundaries, cache "
-        "warming, graceful/ungraceful restarts; separately every filter x range x chunk x scan limit); minimal "
-        "TLC counterexamples of each faithful defect switch replayed on the real code to decide the switches; "
-        "then TLC-simulated 24-step behaviours of the calibrated model (random blocks of 0..2 txs x 0..2 events over "
-        "2 addresses and 2 keys x 2 positions, reverts, restarts, queries with random filter/range/chunk/limit) "
-        "replayed on a real Blockchain over a base image of 8188 (thorough: also 16380) blocks with the real window "
-        "size; non-trivial = every behaviour stores blocks across the 8191|8192 boundary region and ends with "
-        "single-atom probe queries; every step compares results, pages, tokens, persisted windows and snapshot")
+        "warming, graceful/ungraceful restarts; separately every filter x range x chunk x scan limit); the expected "
+        "model is fixed by known_findings.json (fixed/unlisted = repaired); every run replays, judged by a naive-scan "
+        "oracle over the stored receipts, TLC's minimal counterexample of each defect switch and 12 directed boundary "
+        "scenarios (revert of block k*8192-1 with warm cache, k*8192 then k*8192-1 with a query in between, deeper "
+        "reorgs, snapshot and persisted-window variants), then TLC-simulated 24-step behaviours of the expected model "
+        "(random blocks of 0..2 txs x 0..2 events over 2 addresses and 2 keys x 2 positions, reverts, restarts, queries "
+        "with random filter/range/chunk/limit) on a real Blockchain over a base image of 8188 (thorough: also 16380) "
+        "blocks with the real window size; every step compares results, pages, tokens, persisted windows and snapshot; "
+        "non-trivial = every behaviour stores blocks in the 8191|8192 boundary region and ends with single-atom probes")
